@@ -44,12 +44,12 @@ type c34Req struct {
 	Kind    string `json:"kind"` // prevote | precommit | proposal
 	H       int64  `json:"h"`
 	R       int    `json:"r"`
-	Block   int    `json:"block"`  // 0 = nil block id, n>0 = n-th distinct block id
-	TS      int64  `json:"ts"`     // timestamp (seconds offset)
-	Chain   int    `json:"chain"`  // 0 = the validator's chain, 1 = another chain id
-	POL     int    `json:"pol"`    // proposals: POLRound
-	Fault   string `json:"fault"`  // "" | crash-before-persist | crash-after-persist | persist-fail
-	Stray   int    `json:"stray"`  // crash-before-persist: 0 no temp file left, 1 complete temp file, 2 torn temp file
+	Block   int    `json:"block"`   // 0 = nil block id, n>0 = n-th distinct block id
+	TS      int64  `json:"ts"`      // timestamp (seconds offset)
+	Chain   int    `json:"chain"`   // 0 = the validator's chain, 1 = another chain id
+	POL     int    `json:"pol"`     // proposals: POLRound
+	Fault   string `json:"fault"`   // "" | crash-before-persist | crash-after-persist | persist-fail
+	Stray   int    `json:"stray"`   // crash-before-persist: 0 no temp file left, 1 complete temp file, 2 torn temp file
 	Restart bool   `json:"restart"` // clean restart after this request
 }
 
